@@ -15,9 +15,9 @@ KERNEL_TB = [
 ]
 
 
-def driver_out(ctx, args, timeout=600):
+def driver_out(ctx, args, timeout=600, driver=None):
     env = dict(os.environ, VERIF_REPO=C.REPO)
-    p = subprocess.run([ctx.prep["driver"]] + [str(a) for a in args], stdout=subprocess.PIPE,
+    p = subprocess.run([driver or ctx.prep["driver"]] + [str(a) for a in args], stdout=subprocess.PIPE,
                        stderr=subprocess.PIPE, text=True, timeout=timeout, env=env)
     if p.returncode != 0:
         raise RuntimeError("driver failed: %s: %s" % (args, p.stderr[-1500:]))
@@ -273,20 +273,30 @@ def shrink_bytes(ctx, key, hexs, fails):
 
 
 def run_message_property(ctx, spec):
+    return run_message_property_with(ctx, spec)
+
+
+def run_message_property_with(ctx, spec, pre_problems=None):
     """Generic decider for the properties that live on the msg/dec/hist suites."""
     level = spec.get("level", "proof")
     if not model_available(ctx):
         return infra_failure(ctx, level)
     ok, ob, problems = proof_status(ctx, spec["theorems"])
+    if pre_problems:
+        problems = list(problems) + list(pre_problems)
+        ok = False
     kf = C.known_findings()
     prop_bad, tie_bad, spec_bad = [], [], []
     total = 0
     distinct = set()
     hist = {}
     samples = []
-    for sname, gen_args in spec["suites"](ctx):
-        rows = parse_rows(E.run_suite(ctx, sname + "_" + str(gen_args[0]), gen_args))
+    for entry in spec["suites"](ctx):
+        sname, gen_args = entry[0], entry[1]
+        drv = entry[2] if len(entry) > 2 else None
+        rows = parse_rows(E.run_suite(ctx, sname + "_" + str(gen_args[0]) + ("_fresh" if drv else ""), gen_args, driver=drv))
         for r in rows:
+            r["_drv"] = drv
             if r["suite"] == "schema":
                 if not r["ok"]:
                     tie_bad.append(("schema", r))
@@ -328,10 +338,10 @@ def run_message_property(ctx, spec):
         if r["suite"] == "msg":
             flag = spec.get("shrink_flag", "bad")
             try:
-                out = driver_out(ctx, ["msg-shrink", r["key"], r["val"], flag])
+                out = driver_out(ctx, ["msg-shrink", r["key"], r["val"], flag], driver=r.get("_drv"))
                 line = [l for l in out.split("\n") if l.startswith("msg\t")][0].split("\t")
                 rep.update({"value": line[3], "marshal_bytes": line[4], "flags": line[5], "detail": line[6][:2000]})
-                rep["replay_cmd"] = "/verif/work/bin/zzverif msg-one '%s' '%s'" % (r["key"], line[3])
+                rep["replay_cmd"] = "%s msg-one '%s' '%s'" % (r.get("_drv") or "/verif/work/bin/zzverif", r["key"], line[3])
             except Exception as e:  # noqa
                 rep.update({"value": r["val"], "marshal_bytes": r["impl"], "flags": r["flags"], "detail": r["detail"][:2000], "shrink_error": str(e)[:200]})
                 rep["replay_cmd"] = "/verif/work/bin/zzverif msg-one '%s' '%s'" % (r["key"], r["val"])
@@ -339,7 +349,7 @@ def run_message_property(ctx, spec):
             pt = spec["prop"]["dec"]
 
             def fails(hx):
-                out = driver_out(ctx, ["dec-one", r["key"], hx])
+                out = driver_out(ctx, ["dec-one", r["key"], hx], driver=r.get("_drv"))
                 line = [l for l in out.split("\n") if l.startswith("dec\t")][0].split("\t")
                 rr = parse_rows([{"suite": "dec", "cols": line[1:], "model": []}])[0]
                 return not pt(rr)
@@ -349,14 +359,14 @@ def run_message_property(ctx, spec):
                     hx = shrink_bytes(ctx, r["key"], hx, fails)
             except Exception as e:  # noqa
                 rep["shrink_error"] = str(e)[:200]
-            out = driver_out(ctx, ["dec-one", r["key"], hx])
+            out = driver_out(ctx, ["dec-one", r["key"], hx], driver=r.get("_drv"))
             line = [l for l in out.split("\n") if l.startswith("dec\t")][0].split("\t")
             rep.update({"input_hex": hx, "picobuf": line[4], "picobuf_value": line[5][:1500], "reference": line[6], "reference_value": line[7][:1500], "flags": line[8]})
-            rep["replay_cmd"] = "/verif/work/bin/zzverif dec-one '%s' %s" % (r["key"], hx)
+            rep["replay_cmd"] = "%s dec-one '%s' %s" % (r.get("_drv") or "/verif/work/bin/zzverif", r["key"], hx)
         else:
             rep.update({"chunks": r["chunks"], "sequential": [r["seqst"], r["sv"][:1500]], "one_call": [r["onest"], r["ov"][:1500]],
                         "reference": [r["rst"], r["rv"][:1500]], "flags": r["flags"]})
-            rep["replay_cmd"] = "/verif/work/bin/zzverif hist-one '%s' %s" % (r["key"], r["chunks"])
+            rep["replay_cmd"] = "%s hist-one '%s' %s" % (r.get("_drv") or "/verif/work/bin/zzverif", r["key"], r["chunks"])
         sig = "%s:%s" % (r["suite"], r["key"])
         known = [k for k in kf["open"] if k["property"] == ctx.pid and k.get("sig") == sig]
         if known and len({x["key"] for x in prop_bad}) == 1:
@@ -370,7 +380,7 @@ def run_message_property(ctx, spec):
                                                 for s, r in tie_bad[:4]],
                   "spec_vs_reference_mismatches": [dict(suite=s, type=r.get("key"), input=(r.get("val") or r.get("hex") or "")[:600]) for s, r in spec_bad[:4]],
                   "search": "%d cases of suites %s run against the reference implementation: no input violating the property found" % (
-                      total, [s for s, _ in spec["suites"](ctx)])}
+                      total, [e[0] for e in spec["suites"](ctx)])}
         ctx.violation("tie", detail, has_input=False, text=json.dumps(detail)[:500])
     return E.finish(ctx, level, trusted=KERNEL_TB + spec.get("trusted", []))
 
@@ -610,3 +620,144 @@ def check_C11(ctx):
         nontrivial=nontrivial_any, shrink_flag="bad",
         rule="map-typed messages only: random maps (zero keys, zero values, NaN values, 0-6 entries), Marshal repeated under Go's random iteration order "
              "(the model's entry order is instantiated with the observed one), wire encodings with missing key/value, duplicates, both field orders, unknown fields inside entries; oracle: dynamicpb maps"))
+
+
+# --------------------------------------------------------------------------
+# C12 / fresh schemas
+
+import fresh as F  # noqa: E402
+
+
+def fresh_set(ctx):
+    n = 4 if ctx.tier == "quick" else 40
+    sch = F.standard_set(ctx.seed, n)
+    return sch
+
+
+def fresh_driver(ctx):
+    """Build (cached) the second driver containing the generated packages of the standard fresh set."""
+    res = F.cached_build(fresh_set(ctx), "fresh-" + ctx.tier)
+    return res
+
+
+def fresh_filter(res):
+    pk = tuple(k + ".proto:" for k, v in res["results"].items() if v == "ok")
+    return lambda r: r.get("key", "").startswith(pk)
+
+
+def check_C12(ctx):
+    level = "proof"
+    if not model_available(ctx):
+        return infra_failure(ctx, level)
+    ok, ob, problems = proof_status(ctx, ["C12_always_selection", "C12_boundary_optional_enum", "C12_checked_in_total"])
+    sch = fresh_set(ctx)
+    bnd = {k: v[1]() for k, v in F.BOUNDARY.items()}
+    res = fresh_driver(ctx)
+    bres = F.cached_build(bnd, "fresh-boundary")
+    findings = []
+    obligations_bad = []
+    # 1. generator verdicts vs the model's gen_all on the same schemas
+    specs = []
+    for tag, d in (("fresh-" + ctx.tier, sch), ("fresh-boundary", bnd)):
+        for pkg in d:
+            specs.append("%s=%s.proto" % (os.path.join(C.WORK, tag, "src", pkg + ".proto"), pkg))
+    rows = E.run_suite(ctx, "schema-of", ["schema-of"] + specs)
+    model_verdict, model_progs, go_names = {}, {}, {}
+    for r in rows:
+        if r["suite"] == "schema":
+            model_verdict[r["cols"][0][:-6]] = r["model"][0] if r["model"] else "?"
+        elif r["suite"] == "progs":
+            model_progs[r["cols"][0][:-6]] = r["model"][0] if r["model"] else "?"
+            go_names[r["cols"][0][:-6]] = r["cols"][1].split(",")
+        elif r["suite"] == "schemaerror":
+            obligations_bad.append("harness could not parse generated schema %s: %s" % (r["cols"][0], r["cols"][1]))
+    allres = dict(res["results"])
+    allres.update(bres["results"])
+    hist = {"generator": {}, "model": {}}
+    for pkg, verdict in sorted(allres.items()):
+        mv = model_verdict.get(pkg, "?")
+        gk = "ok" if verdict == "ok" else ("compile-error" if verdict.startswith("compile-error") else "error")
+        hist["generator"][gk] = hist["generator"].get(gk, 0) + 1
+        hist["model"][mv.split(":")[0]] = hist["model"].get(mv.split(":")[0], 0) + 1
+        expected_boundary = pkg in bnd
+        text = (sch.get(pkg) or bnd.get(pkg))
+        if gk == "compile-error":
+            findings.append(("compile", pkg, {"schema": text, "generator": verdict, "model": mv,
+                                              "what": "protoc-gen-pico output does not compile for a schema inside the documented feature set"}))
+        elif gk == "error" and not expected_boundary:
+            findings.append(("generror", pkg, {"schema": text, "generator": verdict, "model": mv,
+                                               "what": "generator fails on a schema inside the documented feature set"}))
+        elif gk == "ok" and expected_boundary:
+            obligations_bad.append("boundary schema %s (%s) accepted by the generator; model says %s" % (pkg, F.BOUNDARY[pkg][0], mv))
+        if (gk == "ok") != (mv == "ok") and gk != "compile-error":
+            obligations_bad.append("generator/model disagree on %s: generator %s, model %s" % (pkg, verdict[:200], mv))
+    # 2. emitted programs = the generator model's programs (T-pico)
+    tp_total = 0
+    files = []
+    for tag, r0 in (("fresh-" + ctx.tier, res),):
+        for pkg, v in r0["results"].items():
+            if v == "ok":
+                files.append(os.path.join(r0["gen"], "fresh", pkg, pkg + ".pico.go"))
+    if files:
+        out = driver_out(ctx, ["tpico"] + files)
+        for line in out.split("\n"):
+            c = line.split("\t")
+            if c[0] == "prog" and len(c) >= 5:
+                pkg = c[1][:-8]
+                names = go_names.get(pkg, [])
+                mp = model_progs.get(pkg, "").split(";;")
+                if c[2] in names and names.index(c[2]) < len(mp):
+                    tp_total += 1
+                    if mp[names.index(c[2])] != c[3] + "|" + c[4]:
+                        obligations_bad.append("emitted program of %s.%s differs from the generator model: emitted %s | model %s" % (
+                            pkg, c[2], (c[3] + "|" + c[4])[:600], mp[names.index(c[2])][:600]))
+            elif c[0] == "progerror":
+                obligations_bad.append("T-pico cannot parse %s: %s" % (c[1], c[2][:300]))
+    # 3. determinism: the same descriptor yields the same source
+    if res.get("driver"):
+        import tempfile, filecmp
+        d2 = os.path.join(C.WORK, "fresh-det")
+        import shutil
+        shutil.rmtree(d2, ignore_errors=True)
+        plugin = os.path.join(C.BIN, "protoc-gen-pico")
+        for pkg, v in list(res["results"].items())[:6]:
+            if v != "ok":
+                continue
+            driver_out(ctx, ["genrun", plugin, os.path.join(d2, pkg), "paths=source_relative", "%s=%s.proto" % (os.path.join(res["src"], pkg + ".proto"), pkg)])
+            a = os.path.join(res["gen"], "fresh", pkg, pkg + ".pico.go")
+            b = os.path.join(d2, pkg, pkg + ".pico.go")
+            if not (os.path.exists(b) and open(a).read() == open(b).read()):
+                findings.append(("nondeterministic", pkg, {"schema": sch.get(pkg), "what": "two plugin runs on the same descriptor produced different sources"}))
+        shutil.rmtree(d2, ignore_errors=True)
+    ctx.cover["histograms"]["schemas"] = hist
+    ctx.cover["programs_compared_with_model"] = tp_total
+    ctx.cover["schemas_generated"] = len(allres)
+    kf = C.known_findings()
+    for kind, pkg, rep in findings:
+        sig = "gen:%s:%s" % (kind, pkg)
+        known = [k for k in kf["open"] if k["property"] == "C12" and k.get("sig") == sig]
+        if known:
+            ctx.known.append(known[0]["text"])
+        else:
+            ctx.violation("gen-" + pkg, rep, text="%s: %s" % (pkg, rep["what"]))
+    if ctx.violations:
+        ctx.add_cases(len(allres), max(2, len(allres)), samples=[{"schema": k, "generator": v[:100]} for k, v in list(allres.items())[:3]])
+        ctx.cover["rule"] = "fresh schemas (fixed feature-coverage set + grammar-drawn) through the real plugin"
+        return E.finish(ctx, level, trusted=KERNEL_TB)
+    # 4. behaviour of the emitted code: C01/C03/C06/C08 on the generated types
+    if not res.get("driver"):
+        ctx.violation("fresh-build", {"what": "fresh driver could not be built", "log": res.get("log", "")[:3000]}, has_input=False, text=res.get("log", "")[:300])
+        return E.finish(ctx, level, trusted=KERNEL_TB)
+    flt = fresh_filter(res)
+    spec = dict(
+        theorems=["C12_always_selection", "C12_boundary_optional_enum", "C12_checked_in_total"],
+        suites=lambda c: [("msg", ["msg", c.seed, _n(c, 2500, 40000), ".proto:"], res["driver"]), ("decv", ["decv", c.seed, _n(c, 1500, 20000), ".proto:"], res["driver"])],
+        filter=flt,
+        prop={"msg": lambda r: r["impl"] != "PANIC" and all(r["flags"].get(k) in ("ok", "na") for k in ("c01", "c03", "c06", "c08o", "c08r")),
+              "dec": lambda r: r["ist"] == "ok" and r["flags"].get("c02") == "ok"},
+        tie={"msg": tie_bytes, "dec": tie_dec_val}, spec={"msg": spec_msg, "dec": spec_dec}, nontrivial=nontrivial_any, shrink_flag="bad",
+        rule="schemas: fixed set covering every generator branch (all 180 maps, recursion, optional x 15 kinds, oneof x 15 kinds + enum + message, out-of-order and extreme field numbers, "
+             "picoconv casts in all four shapes, capture) + grammar-drawn schemas, run through the real plugin, compiled, and driven like the checked-in types; "
+             "boundary schemas (optional enum, map<_,message/enum>, capture with number >= 64) must be rejected by generator and model alike")
+    rc = run_message_property_with(ctx, spec, pre_problems=obligations_bad)
+    return rc
